@@ -200,6 +200,9 @@ def check(repo: Repo, run: Run) -> None:
               "R0", "a trace decoder of its own per request", "traces() decodes each dump with a TracesParser built for that call: a "
               "decoder kept between calls still holds the windows a cut dump left open, and reports them closed by the next dump's "
               "records - traces no parse of that dump alone contains", 2)
+    take_over(run, "c13", "C13", repo, lambda o: o["rule"] == "R6", "R0", "objects of its own per parse",
+              "state kept in an object every parser shares outlives the parse that wrote it: a cut dump parsed after the complete one "
+              "reports what only the complete one contained", 1)
     take_over(run, "c02", "C02", repo, lambda o: o["rule"] == "R1", "R0", "record framing of a version-2 dump",
               "a dump cut anywhere must report the records that are whole: framing that depends on anything but the bytes read so "
               "far (the size of the file, a seek) reports other records for the cut dump than for the complete one", 8)
